@@ -56,7 +56,11 @@ type Event struct {
 	Fresh bool   `json:"fresh"`
 	Fn    string `json:"fn"`
 	Args  any    `json:"args"`
-	H     int    `json:"h"` // history number
+	Ret   any    `json:"ret"` // reader result of a primitive, as a value tree
+	Big   bool   `json:"big"` // post not logged (very long buffer); same = harness-observed "buffer unchanged"
+	Same  bool   `json:"same"`
+	PLen  int    `json:"plen"` // unread length after the call
+	H     int    `json:"h"`    // history number
 }
 
 type Machine struct {
@@ -101,7 +105,7 @@ func guarded(f func() error) (res string, errs string) {
 func (m *Machine) Exec(op Op) (Event, error) {
 	m.NextID++
 	ev := Event{ID: m.NextID, Op: op.Op, B: op.B, O: op.O, T: op.T, K: op.K, Bytes: []int{}, V: emptyObj, VPost: emptyObj,
-		Res: "na", Post: []int{}, Out: []int{}, Alg: op.Alg, Alloc: -1, Tag: op.Tag, From: op.From, Fresh: op.Fresh, Fn: op.Fn, Args: map[string]any{}, H: m.Hist}
+		Res: "na", Post: []int{}, Out: []int{}, Alg: op.Alg, Alloc: -1, Tag: op.Tag, From: op.From, Fresh: op.Fresh, Fn: op.Fn, Args: map[string]any{}, Ret: []int{}, H: m.Hist}
 	if op.Args != nil {
 		ev.Args = op.Args
 	}
@@ -253,6 +257,11 @@ func (m *Machine) Exec(op Op) (Event, error) {
 	case "calc":
 		b := m.buf(op.B)
 		ev.InLen = b.Len()
+		big := b.Len() > 1<<16
+		var before []byte
+		if big {
+			before = append([]byte{}, b.Bytes()...)
+		}
 		var out []int
 		ev.Res, ev.Err = guarded(func() error {
 			var err error
@@ -262,7 +271,52 @@ func (m *Machine) Exec(op Op) (Event, error) {
 		if out != nil {
 			ev.Out = out
 		}
-		ev.Post = unread(b)
+		ev.PLen = b.Len()
+		if big {
+			ev.Big = true
+			ev.Same = bytes.Equal(before, b.Bytes())
+		} else {
+			ev.Post = unread(b)
+		}
+	case "fill":
+		// buffer B := the run-length described bytes args.runs (very long inputs)
+		b := m.buf(op.B)
+		b.Reset()
+		for _, e := range asList(op.Args["runs"]) {
+			r := e.(map[string]any)
+			b.Write(bytes.Repeat([]byte{byte(argInt(r, "b"))}, argInt(r, "n")))
+		}
+		ev.PLen = b.Len()
+		ev.Big = b.Len() > 1<<16
+		if !ev.Big {
+			ev.Post = unread(b)
+		}
+	case "prim":
+		b := m.buf(op.B)
+		ev.InLen = b.Len()
+		var ret any
+		var herr error
+		ev.Res, ev.Err = guarded(func() error {
+			r, err := ExecPrim(b, op.Fn, op.Args)
+			if he, ok := err.(HarnessError); ok {
+				herr = he
+				return nil
+			}
+			ret = r
+			return err
+		})
+		if herr != nil {
+			return ev, herr
+		}
+		if ret != nil {
+			ev.Ret = ret
+		}
+		ev.PLen = b.Len()
+		if argBool(op.Args, "nopost") {
+			ev.Big = true
+		} else {
+			ev.Post = unread(b)
+		}
 	default:
 		return ev, fmt.Errorf("unknown op %q", op.Op)
 	}
